@@ -647,6 +647,10 @@ func (x *h2conn) do(p *plan, h *hooks, res *result) {
 			// the server's GOAWAY carried a last-stream-id below this request's stream: "not processed, retry elsewhere"
 			res.Kind = "goaway-refused"
 		}
+		if strings.Contains(out.err.Error(), "PROTOCOL_ERROR") {
+			// the client's framer rejected what the server sent (e.g. a first frame that is not SETTINGS)
+			res.Kind = "protocol-error"
+		}
 		return
 	}
 	checkHTTP(p, out.status, out.tok, out.body, res)
